@@ -157,7 +157,12 @@ class Ctx:
             "violations": len(self.violations),
         }
         out = VERIF / "evidence"
-        out.mkdir(exist_ok=True)
+        if str(REPO) != "/repo":
+            # a run against a scratch worktree (COHDL_REPO: seeded change, refactoring) is not evidence about /repo:
+            # keep the committed record untouched
+            out = out / "scratch"
+            ev["repo"] = str(REPO)
+        out.mkdir(parents=True, exist_ok=True)
         (out / f"{self.prop}.json").write_text(json.dumps(ev, indent=1, default=str))
         return 1 if self.violations else 0
 
